@@ -690,7 +690,22 @@ func (i *interpreter) eqv(t types.Type, x, y value) value {
 		}
 		return xv == y.(string)
 	case *blob:
-		panic(unsupported("comparison of JSON blob"))
+		// two JSON texts produced by the marshalling intrinsic are equal iff the marshalled values are (the real
+		// encoder is deterministic: struct field order, sorted map keys)
+		yv, ok := y.(*blob)
+		if !ok {
+			panic(unsupported("comparison of JSON blob with non-blob"))
+		}
+		if xv.text != "" || yv.text != "" {
+			return xv.text == yv.text && xv.raw == nil && yv.raw == nil
+		}
+		if xv.t == nil || yv.t == nil {
+			return xv.t == nil && yv.t == nil
+		}
+		if !types.Identical(xv.t, yv.t) {
+			return false
+		}
+		return i.deepEqual(xv.t, xv.raw, yv.raw, deepReflect, 0)
 	case structure:
 		yv := y.(structure)
 		st := t.Underlying().(*types.Struct)
